@@ -1332,7 +1332,7 @@ def check_C02(tier):
                 pass  # the literal prefix of the glob does not exist or names a file: the walk reports that it cannot read it
             elif b["item"]["k"] in ("panic", "runaway", "error"):
                 v.disagree({"t": "DISAGREE", "what": "walk_" + b["item"]["k"], "sid": h["sid"], "scenario": h}, "%s: %s" % (h["desc"], b["item"]))
-        exp = expected_glob_yield(h, r, is_match)
+        exp = {W.lossy(t) for t in expected_glob_yield(h, r, is_match)}
         base = h["_base_text"]
         got_below = [t for t in got if os.path.normpath(t) != base]
         n_oracle += 1
